@@ -31,7 +31,7 @@ VARIABLES ti,       \* next line of Rec
 
 tvars == <<vars, ti, xi, conform, exp, found, drifts, okx, hits>>
 
-Props == {"C01", "C02", "C03", "C04", "C05", "C06", "C08", "C09", "C10", "C11", "C12", "C13", "C16", "C17"}
+Props == {"C01", "C02", "C03", "C04", "C05", "C06", "C07", "C08", "C09", "C10", "C11", "C12", "C13", "C16", "C17"}
 
 TInit ==
   /\ sid = 0 /\ hw = <<>> /\ hr = <<>> /\ th = <<>> /\ kf = <<>> /\ val = <<>> /\ pflag = <<>> /\ killed = <<>> /\ nops = 0
